@@ -298,6 +298,9 @@ func configs(r *vk.Run) []cfg {
 	add("plain", full, true, 0)
 	add("gop1", lean, true, 0, "rtmp.gop_num", 1, "httpflv.gop_num", 1)
 	add("gop2cap2", lean, true, 0, "rtmp.gop_num", 2, "httpflv.gop_num", 2, "rtmp.single_gop_max_frame_num", 2, "httpflv.single_gop_max_frame_num", 2)
+	// the caches of the two protocols have sizes of their own
+	add("gop-rtmp1-flv2", lean, true, 0, "rtmp.gop_num", 1, "httpflv.gop_num", 2)
+	add("gop-rtmp2-flv1", lean, true, 0, "rtmp.gop_num", 2, "httpflv.gop_num", 1)
 	add("merge1", lean, true, 0, "rtmp.merge_write_size", 1)
 	add("merge3frames", lean, true, 0, "rtmp.merge_write_size", 130)
 	add("merge+gop1", lean, true, 0, "rtmp.merge_write_size", 130, "rtmp.gop_num", 1, "httpflv.gop_num", 1)
